@@ -27,6 +27,7 @@ type Env struct {
 	// callee's monitor flags (signalled/waited) are fresh unknowns of that call
 	ghostScope map[string]*Term
 	relyOld    *State // in rely conditions old() means the state before the interference step
+	localsSt   *State // state whose local variables names denote (old() keeps the current locals)
 }
 
 func (e *Env) with(vars map[string]Val) *Env {
@@ -95,15 +96,19 @@ func (x *Exec) lookupLocal(env *Env, name string) (Val, bool) {
 	if len(cands) == 0 {
 		return Val{}, false
 	}
+	lst := env.st
+	if env.localsSt != nil {
+		lst = env.localsSt
+	}
 	pick := func(al *ssa.Alloc) (Val, bool) {
 		if al.Heap {
-			r, ok := env.st.regs[al]
+			r, ok := lst.regs[al]
 			if !ok {
 				return Val{}, false
 			}
-			return x.loadAddr(env.st, x.ptrAddr(r)), true
+			return x.loadAddr(lst, x.ptrAddr(r)), true
 		}
-		v, ok := env.st.locals[al]
+		v, ok := lst.locals[al]
 		return v, ok
 	}
 	if ordinal > 0 {
@@ -119,6 +124,29 @@ func (x *Exec) lookupLocal(env *Env, name string) (Val, bool) {
 		}
 	}
 	return Val{}, false
+}
+
+// localPtr: the address (as a pointer value) of a heap-allocated local variable.
+func (x *Exec) localPtr(env *Env, name string) (Val, bool) {
+	if env.fr == nil {
+		return Val{}, false
+	}
+	lst := env.st
+	if env.localsSt != nil {
+		lst = env.localsSt
+	}
+	var found Val
+	ok := false
+	for _, b := range env.fr.fn.Blocks {
+		for _, in := range b.Instrs {
+			if al, isA := in.(*ssa.Alloc); isA && al.Comment == name && al.Heap {
+				if r, has := lst.regs[al]; has {
+					found, ok = r, true
+				}
+			}
+		}
+	}
+	return found, ok
 }
 
 func (x *Exec) eval(env *Env, e *SExpr) Val {
@@ -381,6 +409,11 @@ func (x *Exec) evalSel(env *Env, e *SExpr) Val {
 	base := x.eval(env, e.X)
 	if base.T == nil {
 		x.evalFail("selector %s on untyped value", e.String())
+	}
+	if pt, ok := base.T.Underlying().(*types.Pointer); ok && base.A == nil {
+		if a := x.fieldOfPtr(base.L[0], pt.Elem(), e.Name); a != nil {
+			return x.loadAddr(env.st, a)
+		}
 	}
 	st, ok := base.T.Underlying().(*types.Struct)
 	if !ok {
@@ -680,6 +713,14 @@ func (x *Exec) evalCall(env *Env, e *SExpr) Val {
 	// method-style pure function: recv.name(args)
 	if e.X.K == "sel" {
 		recv := x.eval(env, e.X.X)
+		if recv.T != nil && e.X.X.K == "ident" {
+			if _, isStruct := recv.T.Underlying().(*types.Struct); isStruct {
+				// a struct-valued local whose address is taken: contract methods take its address
+				if p, ok := x.localPtr(env, e.X.X.Name); ok {
+					recv = p
+				}
+			}
+		}
 		if dt := x.E.dynamicType(recv); dt != nil && isRefLike(dt) {
 			// interface value of known dynamic type: its own abstraction function
 			if pf := x.E.pureMethod(dt, e.X.Name); pf != nil && !pf.Abstract {
@@ -707,7 +748,9 @@ func (x *Exec) evalCall(env *Env, e *SExpr) Val {
 			n.relyOld = nil
 			return x.eval(&n, e.Args[0])
 		}
-		n.fr = nil
+		if env.fr != nil && n.localsSt == nil {
+			n.localsSt = env.st // other locals keep their current value; only the heap is the old one
+		}
 		if env.fr != nil {
 			// inside a body: old(x) of a parameter is its entry value
 			n.vars = map[string]Val{}
@@ -975,6 +1018,9 @@ func (x *Exec) applyPure(env *Env, pf *PureFunc, recv *Val, args []*SExpr) Val {
 		name := "pure." + pf.Name
 		if pf.Recv != nil {
 			name = "pure." + strings.TrimPrefix(pf.Recv.Type, "*") + "." + pf.Name
+		}
+		if pf.Role {
+			name = "pure.role." + pf.Name
 		}
 		if x.tc.bv {
 			name = "pure.bv." + strings.TrimPrefix(name, "pure.")
